@@ -181,6 +181,10 @@ def length_sweep(binpath, res):
         for t2 in (kt, kt + "s", kt + " 2", kt + "0", kt + "/", kt + "\n", "x" + kt, kt[:-1], kt.upper(), kt + kt, " " + kt, kt + " "):
             for pay in (b"", b"payload", b"4 link"):
                 pairs.append([t2, pay.hex()])
+    # types that look like pieces of a format template
+    for tok in ("{payload_len}", "{type_len}", "{}", "{0}", "{type}", "%s", "%d", "$1", "{payload_len}1", "1{payload_len}", "{{}}", "\\0", "{payload}"):
+        for pay in (b"", b"abc", b"0123456789ab"):
+            pairs.append([tok, pay.hex()])
     # two types that differ only in their last character, same payload: distinct packings
     for n in (40, 50, 54, 60, 64, 70, 100, 150):
         pairs.append(["t" * n + "A", b"same".hex()])
